@@ -38,6 +38,7 @@ type worldCase struct {
 	Fates        []answerPlan   `json:"fate_table"` // permutation name hash -> fate
 	ServerFB     []bool         `json:"server_feedback_table"`
 	Markings     []int          `json:"markings_per_case"` // 0 unmarked, 1 known failing, 2 known flaky
+	ExactMark    bool           `json:"marked_cases_also_listed_by_exact_name"`
 	RunPatterns  []string       `json:"run_patterns"`
 	SkipPatterns []string       `json:"skip_patterns"`
 	Client       clientScript   `json:"client_process"`
@@ -310,7 +311,7 @@ func (w *world) emitServerFeedback(c *simClient, name string, unterminated bool)
 	if s == nil || s.slot != "reference-server" || s.exited || s.errw == nil || s.errw == os.Stderr {
 		return
 	}
-	line := name + ": scripted server feedback\n"
+	line := name + ": scripted server feedback: with a colon: or two\n"
 	if unterminated {
 		line = strings.TrimSuffix(line, "\n")
 		s.fired["feedback-line-unterminated-at-exit"]++
